@@ -123,6 +123,10 @@ func init() {
 	register("gcm.seal", func(ctx *Ctx, c Cmd, ev Ev) {
 		a := ctx.objs[c.str("h")].(*aeadObj).aead
 		nonce, aad, pt := c.bytes("nonce"), c.bytes("aad"), c.bytes("pt")
+		if c.boolean("packed_in") { // inputs carved from one buffer, spare capacity behind each
+			pk := packed(true, nonce, aad, pt)
+			nonce, aad, pt = pk[0], pk[1], pk[2]
+		}
 		dst, in, whole := layout(c, pt)
 		inplace := c.str("alias") == "inplace"
 		ev["out"] = B(nil)
@@ -168,6 +172,10 @@ func init() {
 	register("gcm.open", func(ctx *Ctx, c Cmd, ev Ev) {
 		a := ctx.objs[c.str("h")].(*aeadObj).aead
 		nonce, aad, ct := c.bytes("nonce"), c.bytes("aad"), c.bytes("ct")
+		if c.boolean("packed_in") {
+			pk := packed(true, nonce, aad, ct)
+			nonce, aad, ct = pk[0], pk[1], pk[2]
+		}
 		dst, in, whole := layout(c, ct)
 		inplace := c.str("alias") == "inplace"
 		ev["out"], ev["out2"] = B(nil), B(nil)
